@@ -335,7 +335,7 @@ def observer_summary(ctx, rid, f, path, key, value, kind):
                 if peel(x) == c.result_term() and is_call(peel(y), ["slice::len", "Vec::len"]) and peel(peel(y)[2][0], transparent=["Deref::deref"]) == peel(scan["bounds"]):
                     sw, pp_false = [bi], be[2]
             si_ = b.switch_info(bi)
-            if si_ and si_[0][0] == "discr" and is_call(peel(si_[0][1], transparent=[]), ["slice::get", "Vec::get"]) and peel(peel(si_[0][1], transparent=[])[2][1]) == c.result_term():
+            if si_ and si_[0][0] == "discr" and is_call(peel(si_[0][1], transparent=[]), ["slice::get", "Vec::get"]) and peel(peel(si_[0][1], transparent=[])[2][1]) == c.result_term() and not sw:
                 sw, pp_false = [bi], ([t for v, t in si_[1] if v == 0] or [si_[2]])[0]
     if len(sw) != 1:
         ctx.ob(rid, key + "|bucket-inc-in-some-arm", False, "the result of the scan must be tested exactly once (found %d tests)" % len(sw), site=c.span)
@@ -374,7 +374,21 @@ def observer_summary(ctx, rid, f, path, key, value, kind):
     if kind == "shared":
         incs = [x for x in b.calls_to(["Atomic::inc_by", "AtomicU64::inc_by_with_ordering"]) if is_call(peel(x.args[0], transparent=[]), ["Index::index"]) and
                 peel(peel(x.args[0], transparent=[])[2][0])[0] == "field" and peel(peel(x.args[0], transparent=[])[2][0])[2] == "buckets"]
-        ok = len(incs) == 1 and only_when_matched(incs[0].bb) and is_idx(peel(incs[0].args[0], transparent=[])[2][1]) and const_int(incs[0].args[1]) == 1
+        got = None
+        if not incs:
+            # `if let Some(cell) = shard.buckets.get(i) { cell.inc_by(1) }`: the cell exists exactly when i is a bucket index (each shard gets upper_bounds.len() cells, C08.R7 `new|one-cell-per-bound`)
+            for x in b.calls_to(["Atomic::inc_by", "AtomicU64::inc_by_with_ordering"]):
+                r_ = peel(x.args[0], transparent=[])
+                if isinstance(r_, tuple) and len(r_) == 3 and r_[0] == "field" and isinstance(r_[1], tuple) and r_[1][0] == "downcast" and r_[1][2] == "Some":
+                    g_ = peel(r_[1][1], transparent=[])
+                    if is_call(g_, ["slice::get", "Vec::get"]) and peel(g_[2][0], transparent=["Deref::deref"])[0] == "field" and peel(g_[2][0], transparent=["Deref::deref"])[2] == "buckets":
+                        incs, got = [x], g_
+        if got is not None:
+            gs = [bi for bi in b.reachable_blocks() if (lambda si_: si_ and si_[0][0] == "discr" and peel(si_[0][1], transparent=[]) == got)(b.switch_info(bi))]
+            okg = len(gs) == 1 and b.edge_dominates(gs[0], [t for v, t in b.switch_info(gs[0])[1] if v == 1][0], incs[0].bb)
+            ok = len(incs) == 1 and okg and is_idx(got[2][1]) and const_int(incs[0].args[1]) == 1
+        else:
+            ok = len(incs) == 1 and only_when_matched(incs[0].bb) and is_idx(peel(incs[0].args[0], transparent=[])[2][1]) and const_int(incs[0].args[1]) == 1
         ctx.ob(rid, key + "|bucket-inc-in-some-arm", ok, "the selected bucket (index of the match) is incremented by 1, only when a bound matched", site=incs[0].span if incs else c.span)
         sums = [x for x in b.calls_to("Atomic::inc_by") if peel(x.args[0])[0] == "field" and peel(x.args[0])[2] == "sum"]
         cnts = [x for x in b.calls_to(["AtomicU64::inc_by_with_ordering", "Atomic::inc_by"]) if peel(x.args[0])[0] == "field" and peel(x.args[0])[2] == "count"]
